@@ -48,7 +48,7 @@ class Faults(object):
         raise ValueError(f)
 
 
-def conversation(sx, typ, fsci, fwi, tx_size, clens, rlens, wtx, budget, kinds):
+def conversation(sx, typ, fsci, fwi, tx_size, clens, rlens, wtx, budget, kinds, go_on=False):
     w = worlds.T4World(sx, 0x20, 255, 255, 16, 3, typ=typ, fsci=fsci, fwi=fwi,
                        tx_size=tx_size, wtx_at=wtx, fill=0x41)
     card = w.sim
@@ -69,9 +69,11 @@ def conversation(sx, typ, fsci, fwi, tx_size, clens, rlens, wtx, budget, kinds):
     faults = Faults(sx, budget, kinds)
     card.hook = faults
     outcome = []
+    failed = False
     retry = tag._dep.n_retry_nak
     for i in range(napdu):
         seen_before = len(card.script_seen)
+        used_before = faults.used
         try:
             got = tag.transceive(cmds[i])
         except nfc.tag.tt4.Type4TagCommandError as e:
@@ -79,21 +81,33 @@ def conversation(sx, typ, fsci, fwi, tx_size, clens, rlens, wtx, budget, kinds):
             outcome.append("error")
             if faults.used == 0:
                 sx.check(False, "error-without-fault:apdu%d" % i)
-            if faults.maxrun <= retry and faults.maxrun <= 1 and retry >= 1:
+            # the reader's retry budget counts failed attempts per block; an
+            # exchange hit by no more faults than that budget must complete
+            if not failed and faults.used - used_before <= retry and faults.maxrun <= 1:
                 sx.check(False, "single-faults-not-absorbed:apdu%d:%s"
                          % (i, "+".join(x for x in faults.log if x != "ok")))
             n = len(card.script_seen) - seen_before
             sx.check(n <= 1, "apdu-executed-more-than-once:apdu%d" % i)
-            break
+            if not go_on:
+                break
+            # the application carries on with the next APDU after the error
+            failed = True
+            if n == 0:
+                # keep the applet's script aligned with the APDU index
+                card.script_seen.append(None)
+            continue
         n = len(card.script_seen) - seen_before
-        sx.check(n == 1, "apdu-executed-%s-times:apdu%d" % ("no" if n == 0 else "several", i))
+        after = ":after-failed-exchange" if failed else ""
+        if failed:
+            sx.reach("apdu_after_failed_exchange")
+        sx.check(n == 1, "apdu-executed-%s-times:apdu%d%s" % ("no" if n == 0 else "several", i, after))
         if n >= 1:
             sx.check(sx.eq(sx.mkbytes(card.script_seen[seen_before], False), cmds[i]),
                      "card-received-different-command:apdu%d" % i)
         expect = sx.mkbytes(rsps[i] + [0x90, 0x00], True)
         if got is None or len(got) != len(expect):
-            sx.check(False, "response-truncated-or-extended:apdu%d" % i)
-        sx.check(sx.eq(got, expect), "response-differs:apdu%d" % i)
+            sx.check(False, "response-truncated-or-extended:apdu%d%s" % (i, after))
+        sx.check(sx.eq(got, expect), "response-differs:apdu%d%s" % (i, after))
         outcome.append("ok")
         sx.reach("apdu_completed")
         if faults.used:
@@ -146,11 +160,15 @@ def partitions(tier):
     P.append(dict(name="A:no-retry-budget", fn="conversation",
                   params=dict(typ="A", fsci=2, fwi=14, tx_size=29, clens=["1m+1"], rlens=["1m+1"],
                               wtx=[], budget=1, kinds=kinds)))
+    # a failed exchange (retry budget 1 exhausted) followed by further APDUs
+    P.append(dict(name="A:after-failure", fn="conversation",
+                  params=dict(typ="A", fsci=2, fwi=11, tx_size=29, clens=[2, 3, 1], rlens=[3, 2, 1],
+                              wtx=[], budget=3, kinds=kinds, go_on=True)))
     return P
 
 
 MUST_REACH = ["apdu_completed", "completed_despite_faults", "tag_command_error",
-              "command_chained", "response_chained", "wtx"]
+              "command_chained", "response_chained", "wtx", "apdu_after_failed_exchange"]
 BOUNDS = {"quick": "<=2 faults per conversation out of {command lost, response lost, response garbled} at each of the first 24 blocks; FSCI 0/2/3; command/response lengths around multiples of FSC-3; 1-3 consecutive APDUs; one S(WTX); FWI 4 and 14; APDU and response bytes symbolic",
           "thorough": "<=3 faults; FSCI 0/2/3/5/8"}
 OUTSIDE = ["CID/NAD", "extended length APDUs", "more than 24 blocks per conversation", "FSD below 256"]
